@@ -20,16 +20,17 @@ def queries():
             qs.append(Query('radix_bucket_r%d_u%d' % (radix, bits), SRC, 'h_radix_bucket',
                             'BucketComputation<%d, %s>: all limit <= m <= x <= y over the full %d-bit domain: index range, monotonicity, bucket 0, redistribution, bounds' % (radix, ty, bits),
                             defs=['RADIX=%d' % radix, 'RINT=' + ty], tiers=('quick', 'thorough') if quick else ('thorough',), timeout=900 if quick else 3600, unwind=70, max_unwind=80))
-    SCRIPTS_Q = ['ppok', 'ppsk', 'epto']
+    SCRIPTS_Q = ['ppok', 'ppsk', 'epto', 'pok']
     SCRIPTS_T = ['pppo', 'ppso', 'pospk', 'ppcpk', 'ppopt', 'pepsp', 'ppoppk', 'pposk', 'eesok', 'ptptpt']
     for radix in (2, 4, 16):
         for key in ('uint8_t', 'int8_t'):
             for sc in SCRIPTS_Q + SCRIPTS_T:
                 quick = sc in SCRIPTS_Q and radix == 4 and key == 'uint8_t' or (sc == 'ppsk' and radix == 2 and key == 'int8_t')
                 qs.append(Query('radixheap_r%d_%s_%s' % (radix, key.replace('_t', ''), sc), SRC, 'h_radixheap',
-                                'RadixHeap<%s keys, radix %d>: scripted operation kinds "%s" (p push, e emplace, t top, o pop, k peak_top_key, s swap_top_bucket, c clear) with symbolic monotone 8-bit keys, then drain, vs multiset model' % (key, radix, sc),
+                                'RadixHeap<%s keys, radix %d>: scripted operation kinds "%s" (p push, e emplace, t top, o pop, k peak_top_key, s swap_top_bucket, c clear) with symbolic monotone 8-bit keys, vs multiset model (at most 4 stored elements)' % (key, radix, sc),
                                 defs=['RADIX=%d' % radix, 'RKEY=' + key, 'H=%d' % len(sc), 'SCRIPT="%s"' % sc, 'RINT=uint32_t'], link=['tlx/die/core.cpp'], ll2c=['--alloc-cap', '8'], tiers=('quick', 'thorough') if quick else ('thorough',),
                                 timeout=1800 if quick else 7200, unwind=4, max_unwind=64, weight=len(sc) * 4))
+    qs.append(Query('radixheap_r4_uint8_ppo_drain', SRC, 'h_radixheap', 'RadixHeap<uint8_t, radix 4>: script ppo then drain in non-decreasing order', defs=['RADIX=4', 'RKEY=uint8_t', 'H=3', 'SCRIPT="ppo"', 'DRAIN', 'RINT=uint32_t'], link=['tlx/die/core.cpp'], ll2c=['--alloc-cap', '8'], tiers=('thorough',), timeout=7200, unwind=4, max_unwind=64))
     qs.append(Query('radixheap_r4_uint8_sym_h2', SRC, 'h_radixheap', 'RadixHeap<uint8_t, radix 4>: 2 fully symbolic operations + drain', defs=['RADIX=4', 'RKEY=uint8_t', 'H=2', 'RINT=uint32_t'], link=['tlx/die/core.cpp'], ll2c=['--alloc-cap', '8'],
                     tiers=('thorough',), timeout=7200, unwind=4, max_unwind=64))
     qs.append(Query('radix_rank', SRC, 'h_radix_rank', 'IntegerRank<int8/16/32/64, uint32>: order preserving and invertible on the full domain', unwind=3))
